@@ -115,36 +115,50 @@ def heap_replay(hist):
     return fails, drift
 
 
-def heap_chunk(hists):
-    return [(h, *heap_replay(h)) for h in hists]
+def _shares(h):
+    """two keys built over the same caller dictionary, a lazily built view among them, and an export / kid assignment"""
+    b = [s for s in h if s["op"] == "build"]
+    return (len(b) == 2 and b[0]["params"] == b[1]["params"] != "none" and any(s["src"] != "jwk" for s in b)
+            and any(s["op"].endswith("export") or s["op"] == "ensure_kid" for s in h))
+
+
+def heap_chunk(args):
+    """parse the exported behaviours of this chunk, pick a seeded sample (sharing histories with probability ps, others pr)
+    and replay the picked ones -> (replays with findings or drift, #replayed, #sharing seen)"""
+    import zlib
+    from .common import parse_case_line
+    lines, ps, pr, seed = args
+    out, n, nshare = [], 0, 0
+    for line in lines:
+        h = parse_case_line(line)["hist"]
+        sh = _shares(h)
+        nshare += sh
+        u = (zlib.crc32(line.encode()) ^ (seed * 2654435761)) % 100000 / 100000.0
+        if u >= (ps if sh else pr):
+            continue
+        n += 1
+        fails, drift = heap_replay(h)
+        if fails or drift:
+            out.append((h, fails, drift))
+    return out, n, nshare
 
 
 def run(ctx: Ctx, prop: str):
     thorough = ctx.tier == "thorough"
-    r = ctx.tlc("JwkHeap", "JwkHeap" if thorough else "JwkHeap_quick", timeout=1200)
+    r = ctx.tlc("JwkHeap", "JwkHeap" if thorough else "JwkHeap_quick", timeout=1200, lazy_cases=True)
     for d in ("ViewBuiltInCallerDict", "ParamsWrittenBack", "KidWrittenToParams"):
         ctx.sensitivity("JwkHeap", "JwkHeap_dev_" + d)
-    hists = list({json.dumps(c["hist"], sort_keys=True): c["hist"] for c in r.cases}.values())
-    if len(hists) < 20000:
-        raise MachineryError(f"JwkHeap export too small: {len(hists)}")
-
-    def shares(h):          # two keys built over the same caller dictionary, a lazily built view among them, and an export / kid assignment
-        b = [s for s in h if s["op"] == "build"]
-        return (len(b) == 2 and b[0]["params"] == b[1]["params"] != "none" and any(s["src"] != "jwk" for s in b)
-                and any(s["op"].endswith("export") or s["op"] == "ensure_kid" for s in h))
-    rnd = random.Random(ctx.seed)
-    chosen = [h for h in hists if shares(h)]
-    rest = [h for h in hists if not shares(h)]
-    nshare = len(chosen)
-    cap, others = (6000, 2000) if prop == "C12" else (2500, 500)       # (C12 owns the heap model; the others re-use it)
-    if not thorough and len(chosen) > cap:
-        chosen = rnd.sample(chosen, cap)
-    chosen += rnd.sample(rest, min(len(rest), 20000 if thorough else others))
-    res = pmap(heap_chunk, [chosen[i::64] for i in range(64)], chunksize=1)
-    for chunk in res:
-        for h, fails, drift in chunk:
-            ctx.evaluations += 1
-            ctx.nontrivial.add("heap:" + json.dumps(h, sort_keys=True))
+    lines = sorted(set(r.case_lines))
+    if len(lines) < 20000:
+        raise MachineryError(f"JwkHeap export too small: {len(lines)}")
+    # (C12 owns the heap model; the others re-use it with a smaller sample.)  About a fifth of the behaviours share a dictionary.
+    ps, pr = (1.0, 0.2) if thorough else ((0.19, 0.015) if prop == "C12" else (0.08, 0.004))
+    res = pmap(heap_chunk, [(lines[i::64], ps, pr, ctx.seed) for i in range(64)], chunksize=1)
+    nrep = nshare = 0
+    for out, n, ns in res:
+        nrep += n; nshare += ns
+        ctx.evaluations += n
+        for h, fails, drift in out:
             for p, what in fails:
                 if p not in (prop, "*"):
                     continue
@@ -152,7 +166,10 @@ def run(ctx: Ctx, prop: str):
                 ctx.violation(f"heap:{what.split(': ', 1)[-1]} history=[{ops}]", {"hist": h, "what": what, "heap": True})
             if drift:
                 ctx.note_drift({"hist": h, "caller_dictionaries_modified": drift})
-    ctx.notes["heap_histories"] = {"exported": len(hists), "sharing": nshare, "replayed": len(chosen)}
+    if nrep < 1000:
+        raise MachineryError(f"only {nrep} heap behaviours replayed")
+    ctx.nontrivial.add(f"heap:{nrep} behaviours")
+    ctx.notes["heap_histories"] = {"exported": len(lines), "sharing": nshare, "replayed": nrep}
 
 
 def replay(ctx: Ctx, rec: dict) -> None:
